@@ -207,6 +207,31 @@ CHECKS = {
         "bitwise equal on all boolean input histories of length 2 (3).",
         "configuration value sets are small; layers are covered through their connection/neuron components; tolerance none (bitwise)",
     ),
+    "C12": (
+        "fault_enumeration", "DESIGN.md §3 C12",
+        "crash-point enumeration: every step index of a run is a checkpoint; state dicts are serialised, loaded into fresh / warmed / "
+        "already-run targets and the continuation is compared bitwise with the uninterrupted run",
+        "Eight models (dense+single-exp+LIF+STDP(delayed), direct+delta+ALIF+TripletSTDP, lateral+double-exp+AdEx+MSTDPET, "
+        "conv+delta-plus+Izhikevich+KernelSTDP, Biclique+LinearHomeostasis, RecurrentSerial+DelayAdjustedSTDP, six stand-alone reducers "
+        "with multi-step durations, MaxRateClassifier), in-place and out-of-place, T=8 steps with training and weight updates every step: for "
+        "every k in [0,8] and every target state, all outputs, state tensors, logical record histories, adaptations, parameters and derived "
+        "classifier buffers after k equal the uninterrupted run.",
+        "one deterministic input pattern per model; checkpoint goes through torch.save/load (a live state_dict aliases buffers); fresh targets "
+        "are warmed by one step as the property allows",
+    ),
+    "C15": (
+        "model_checking", "DESIGN.md §3 C15",
+        "explicit-state BFS over trainer/monitor lifecycle events on a real Biclique layer with one or two real trainers against a registry model; "
+        "absolute (observation counts, listings, hook handles) and differential (solo-world projection) oracles on every transition",
+        "All event sequences up to depth 5 (one trainer, with custom monitors) / 4 (two trainers) / 3 (two trainers with custom monitors) over "
+        "register_cell, del_cell, add/del custom monitor (pooled, unique), trainer train/eval, layer train/eval, layer step, trainer step, "
+        "clear and drop-and-collect, for STDP, MSTDPET and KernelSTDP trainers on two cells that share a postsynaptic population; thorough "
+        "tier two levels deeper. Every monitor must record exactly one observation per armed layer step, listings must equal the "
+        "registry, live hooks must equal armed monitors, and a trainer's monitor data must equal the data in the world where the other "
+        "trainer's events never happened.",
+        "canonical-state dedup (registry, modes, aliasing classes, cell-side name owners, hook count, data flags); known finding: MSTDPET's "
+        "eligibility monitors read other monitors through the per-cell name map shared by all trainers (see known_findings.json)",
+    ),
 }
 
 PENDING_REASON = "check not built yet in this session (claimed in DESIGN.md; will move to checks when its exploration exists)"
